@@ -7,6 +7,9 @@ import Goyang.Lemmas.IncludeAugOrder
 import Goyang.Lemmas.IncludeAugView
 import Goyang.Lemmas.IncludeAugCompose
 import Goyang.Lemmas.IncludeAugRows
+import Goyang.Lemmas.IncludeAugIO
+import Goyang.Lemmas.IncludeAugDec
+import Goyang.Lemmas.IncludeAugShape
 /-
 C13, third sentence — "An included submodule contributes its data nodes, typedefs, groupings and
 identities to the including module exactly as if they were written there."
@@ -95,23 +98,44 @@ Sets WITH augment statements:
     records no error and leaves nothing pending, the owner's tree is the unsplit module's up to `SameTop σ`;
     `IOShape` of the owner's trees;
     `SameIO`), under `IsSplitOf` and `LoadedShape` / `AugPosDistinct` / `AugArgsPlain` of the split registry only.
-  Still missing for `IncludeEqInlineAugments`, i.e. for `LoopsRelated`: (A) the pending ENTRIES of the owner's
+  - (I), first half — CLOSED for every registry: `include_io_shape_along_loop` — every tree the conversion produces
+    and every tree along the augment loop (any fuel, any module order) has `IOShape` (an rpc / action node has no
+    `Dir` child, any other node no input / output).  It fits the call-site aware closure scheme `ClosedT` of
+    Lemmas/BridgeTraverse.lean (frame `Lemmas.IncludeAugShape.shapeFrame`: the entry made from an rpc / action
+    statement has no `Dir` child when its flag is set) and, for the loop, `AugClosed'` (`merge` only at targets that
+    passed `cannotHaveChildren`).  `include_eq_inline_augments_reduced_sameIO`: `IncludeEqInlineAugments` from
+    `Lemmas.IncludeAugIO.LoopsRelatedCore` (`LoopsRelated` without `IOShape` / `SameIO`) + `SameIO` of the owner's trees.
+  - (I) for sets without rpc / action nodes — CLOSED: `include_no_rpc_along_loop` — when the converted trees and the
+    children of the pending augment entries are free of rpc / action nodes and of input / output entries
+    (`Lemmas.IncludeAugIO.NoIOStart`, decidable, evaluated on the converted set) they stay so along the loop, and any
+    two such trees have `SameIO`; `include_eq_inline_augments_norpc_reduced`: for such split sets
+    `IncludeEqInlineAugments` follows from `LoopsRelatedCore` alone.  Kernel-checked instance WITH augments: `Ex4`
+    (`Ex4C.core`: no error, nothing pending, owner's tree `SameTop σ` the unsplit module's — `SameTop` is decidable,
+    Lemmas/IncludeAugDec.lean), from which the conclusion is obtained through the proved chain.
+  Still missing for `IncludeEqInlineAugments`, i.e. for `LoopsRelatedCore` (+ `SameIO` for sets with rpc / action
+  nodes): (A) the pending ENTRIES of the owner's
   row equal the unsplit module's up to `ren σ` (`context_independence` gives it per statement once the state
   at the call is known coherent; the module-level conversion proofs `IncludeMod.mod_conv` /
   `IncludeModN.part_conv_aux` call `fields_rel` with a state relation `RSm` that ignores `TState.augs` — the
   `haug` argument of `fields_rel` is where a relation on the recorded rows has to be threaded through — done for
   a (sub)module without include statements, i.e. every module but the owner, in both registries:
   `Lemmas.IncludeAugRows.mod_conv_rows` (the rows appended are related entry by entry, `REb σ`, to those of the
-  pure fold over the values); open: the owner (`part_conv_aux`: include steps between the field steps; its
-  augment step needs `Coh` of the state at that point — `Coh` is closed under sublists and the grouping cache
-  only grows, `Lemmas.Uses.gcache_extends`, so the exported coherence of the final state suffices) and the
-  assembly over the conversion order (`conv_unsplit`, `conv_split_mods` with a row clause in `UInv` / `SInv`)); (S) the lockstep simulation of the two loops in the SAME module order on
+  pure fold over the values); open: (A-owner) the owner (`part_conv_aux`: include steps between the field steps; the
+  `augment` step is among the fields AFTER the include step, `keyC` of that proof, which has to be restated with
+  `RSa` in place of `RSm`; `PGoal` / `FInv` do not speak about `TState.augs`, so the rows appended by the
+  submodules' conversions (`(sb.seq, [])`) have to be added to them — i.e. the induction `part_conv` has to be
+  restated, not only its last step) and the assembly over the conversion order (`conv_unsplit`, `conv_split_mods`
+  with a row clause in `UInv` / `SInv`; `pendingOf` takes the FIRST row with the key, so "each module files one
+  row" is part of it)); (S) the lockstep simulation of the two loops in the SAME module order on
   forests related by `ren σ` / `SameTop` (`find` through `child?_sameTop`, `merge`/`updateAt` under `ren`; the
-  split forest has the additional submodule trees and the other registry); (I) `IOShape` along the pipeline (it
-  does not fit the `LocalBase` closure scheme: the `isRpc` flag is set on an entry after its children) and
-  `SameIO` of the two runs over the split set (every pending augment is retried in the last, unproductive pass,
-  so both runs create the same inputs / outputs — not proved; trivial for sets without rpc / action nodes,
-  `Lemmas.IncludeAugView.sameIO_of_noRpc`).  (E) is closed.
+  split forest has the additional submodule trees and the other registry: `find` resolves prefixes through
+  `byId` / `findModuleByPrefix` / `owner` of the registry, which have to be related for `R` and `R'`; C05's
+  `LoadOrderAug.augment*_rel` needs an injective renaming and `Forest.ren` equality and does not apply — `σ` maps the
+  submodules' numbers to the owner's); (I, second half) `SameIO` of the two runs over the split set for sets WITH rpc /
+  action nodes (every pending augment is retried in the last, unproductive pass, so both runs create the same inputs /
+  outputs — not proved).  (E) is closed; (I) is closed but for that.  Also not done: `NoIOStart` from a condition on the
+  STATEMENTS (no rpc / action / input / output statement in the set): the closure schemes `Closed` / `ClosedT` give no
+  call-site information in their `setInp` / `setOut` clauses, a dedicated induction over `toEntry` would be needed.
   For sets WITH augments left for the stage after FixChoice the same pieces are needed for every
   retry round (each round is the same loop, `Lemmas/Rounds.lean`); `fixChoice` under `SameTop` is
   `Lemmas.IncludeMain.sameTop_fixChoice`, under the path view `fixChoice_path_view`.
@@ -168,7 +192,8 @@ statements), `include_eq_inline_partial` + `include_paths` (the same sets; `R` w
 `include_pending_rows`, `include_augment_loop_order`, `include_augment_loop_clean_iff`, `no_leftover_result`,
 `include_eq_inline_witness`, `dump_of_path_view` / `dump_of_view` (E), `fixChoice_path_view` (F),
 `include_dump_in_unsplit_order`, `include_clean_in_unsplit_order`, `include_dump_of_related_trees`,
-`include_eq_inline_augments_reduced`.
+`include_eq_inline_augments_reduced`, `include_io_shape_along_loop` (I, first half, all sets), `include_no_rpc_along_loop`,
+`include_eq_inline_augments_norpc_reduced`, `include_eq_inline_augments_reduced_sameIO`.
 The statement with the hypotheses under which those results apply is `IncludeEqInlineAugments`.  What is
 missing for it: (1) the augment loop
 visits the trees in an order that the additional (augment-free) submodule trees change (swap-remove
@@ -176,8 +201,9 @@ over the module array), so children grafted by different modules into one node c
 order — CLOSED on the flat view by `include_augment_loop_order` (C07's order independence); what remains
 is (A) the pending entries of the owner's row equal the unsplit module's up to `ren σ`, (S) the lockstep
 simulation of the two loops in the same module order on forests related by `ren σ` / `SameTop` (targets go
-through `Entry.Find` by name, insensitive to the order: `child?_sameTop`), (I) `IOShape` along the pipeline and
-`SameIO` of the two runs ((E) the canonical dump as a function of the view: CLOSED, `dump_of_view`; the whole
+through `Entry.Find` by name, insensitive to the order: `child?_sameTop`), (I) `SameIO` of the two runs for sets with
+rpc / action nodes (`IOShape` along the pipeline: CLOSED, `include_io_shape_along_loop`; sets without rpc / action nodes:
+CLOSED, `include_no_rpc_along_loop`) ((E) the canonical dump as a function of the view: CLOSED, `dump_of_view`; the whole
 composition from (A) + (S) + (I): `include_eq_inline_augments_reduced`); (3) nested includes among the parts ARE covered
 (`parts_merge_each_submodule_once`); (4) other modules of `R` with submodules of their own (their include
 steps run in lockstep in both registries; not done); deviations (after the augment stage: `find` on
@@ -1422,5 +1448,153 @@ example : (processAll Ex4.R' {} Ex.plug).errors = [] ↔
     Lemmas.AugmentReport.allErrs (Lemmas.IncludeAugCompose.loopU Ex4.R Ex4.R' {} Ex.plug).forest = [] :=
   include_clean_in_unsplit_order Ex4.sp Ex4.R Ex4.R' {} Ex.plug Ex.plug Ex4.isSplit (by decide +kernel) (by decide +kernel)
     Ex4E.argsPlain Ex4E.stage1 Ex4E.conv0 (by decide +kernel) Ex4E.noLeftover'
+
+
+/-! ### (I) for sets without rpc / action nodes -/
+
+/-- **include_no_rpc_along_loop** (piece I for sets without rpc / action nodes; any registry).  When every tree the
+conversion has produced and every child of a pending augment entry is free of rpc / action nodes and of rpc
+input / output entries (`Lemmas.IncludeAugIO.NoIOStart`, decidable), every tree stays so along the augment loop —
+any fuel, any module order: `Find` creates an input / output only below an rpc node, error recording and `merge` at
+the target keep it.  Such trees have `IOShape`, and any two of them `SameIO` (no input / output exists at all). -/
+theorem include_no_rpc_along_loop (reg : Registry) (opts : Opts) (plug : Plug)
+    (h0 : Lemmas.IncludeAugIO.NoIOStart reg opts plug) (fuel : Nat) (mods : Array Nat) :
+    (∀ t ∈ (augmentLoop reg fuel mods (pstate0 reg opts plug)).2.forest.trees,
+      Lemmas.IncludeAugIO.NoIO t.2 ∧ Lemmas.IncludeAugView.IOShape t.2 ∧ Lemmas.IncludeAugView.NoRpc t.2) ∧
+    ∀ t ∈ (augmentLoop reg fuel mods (pstate0 reg opts plug)).2.forest.trees,
+      ∀ (fuel' : Nat) (mods' : Array Nat), ∀ t' ∈ (augmentLoop reg fuel' mods' (pstate0 reg opts plug)).2.forest.trees,
+        Lemmas.IncludeAugView.SameIO t.2 t'.2 := by
+  refine ⟨fun t ht => ?_, fun t ht fuel' mods' t' ht' => ?_⟩
+  · have := Lemmas.IncludeAugIO.noIO_loop reg opts plug h0 fuel mods t ht
+    exact ⟨this, Lemmas.IncludeAugIO.noIO_ioShape this, Lemmas.IncludeAugIO.noIO_noRpc this⟩
+  · exact Lemmas.IncludeAugIO.sameIO_of_noIO (Lemmas.IncludeAugIO.noIO_loop reg opts plug h0 fuel mods t ht)
+      (Lemmas.IncludeAugIO.noIO_loop reg opts plug h0 fuel' mods' t' ht')
+
+/-- The hypothesis of `include_no_rpc_along_loop` holds of the split set of `Ex4` (three trees, two pending augment
+entries; kernel-evaluated). -/
+example : Lemmas.IncludeAugIO.NoIOStart Ex4.R' {} Ex.plug := by decide +kernel
+
+/-- **include_eq_inline_augments_norpc_reduced.**  For split sets without rpc / action nodes (`NoIOStart` of the
+split registry, decidable) `IncludeEqInlineAugments` follows from `Lemmas.IncludeAugIO.LoopsRelatedCore` alone —
+`LoopsRelated` without its `IOShape` / `SameIO` parts: the loop over the split set, run in the module order of
+the unsplit set, records no error, leaves nothing pending and leaves the owner's tree equal to the unsplit
+module's up to `SameTop σ`.  That statement is what pieces (A) and (S) have to deliver; (I) is closed for these
+sets. -/
+theorem include_eq_inline_augments_norpc_reduced (s : Split) (R R' : Registry) (opts : Opts) (plug plug' : Plug)
+    (h : IsSplitOf s R R' plug plug') (hL : Lemmas.Fuel.LoadedShape R') (hpos : Lemmas.Bridge.AugPosDistinct R')
+    (hplain : Lemmas.Bridge.AugArgsPlain R') (h0 : Lemmas.IncludeAugIO.NoIOStart R' opts plug')
+    (hS : (processAll R opts plug).errors = [] → Lemmas.IncludeAugOrder.NoLeftover R opts plug →
+      Lemmas.IncludeAugIO.LoopsRelatedCore s R R' opts plug plug') :
+    IncludeEqInlineAugments s R R' opts plug plug' :=
+  include_eq_inline_augments_reduced s R R' opts plug plug' h hL hpos hplain
+    (fun hc hn => Lemmas.IncludeAugIO.loopsRelated_of_noIO opts plug plug' h0 (hS hc hn))
+
+
+/-! non-vacuity of `include_eq_inline_augments_norpc_reduced`: `Ex4` (two modules augment, in a chain, a container
+that the split moves into a submodule).  `LoopsRelatedCore` is kernel-checked: the loop over the split set in the
+module order of the unsplit set records no error and leaves nothing pending, and the owner's tree is `SameTop σ`
+the unsplit module's (`SameTop` is decidable: Lemmas/IncludeAugDec.lean). -/
+namespace Ex4C
+open Ex (plug)
+open Ex4
+open Goyang.Lemmas.IncludeAugK Goyang.Lemmas.IncludeAugCompose Goyang.Lemmas.IncludeAugOrder
+open Goyang.Lemmas.IncludeAugIO Goyang.Lemmas.IncludeAugDec
+
+theorem clean_u : Lemmas.AugmentReport.allErrs (loopU R R' {} plug).forest = [] := by
+  unfold loopU; rw [augmentLoop_eqK]; decide +kernel
+
+theorem pnil_u : ∀ p ∈ (loopU R R' {} plug).pending, p.2 = [] := by
+  unfold loopU; rw [augmentLoop_eqK]; decide +kernel
+
+theorem trees : ∃ t tu, (afterLoop R {} plug).2.forest.tree? 2 = some t ∧ (loopU R R' {} plug).forest.tree? 2 = some tu ∧
+    SameTop sp.σ tu t := by
+  unfold loopU
+  rw [augmentLoop_eqK, afterLoop_eqK]
+  have h : ((afterLoopK R {} plug).2.forest.tree? 2).any (fun t =>
+      ((augmentLoopK R' (loopFuel R' {} plug) ((augOrder R).map (·.seq)).toArray (pstate0 R' {} plug)).2.forest.tree? 2).any
+        fun tu => decide (SameTop sp.σ tu t)) = true := by decide +kernel
+  cases h1 : (afterLoopK R {} plug).2.forest.tree? 2 with
+  | none => rw [h1] at h; cases h
+  | some t =>
+    cases h2 : (augmentLoopK R' (loopFuel R' {} plug) ((augOrder R).map (·.seq)).toArray (pstate0 R' {} plug)).2.forest.tree? 2 with
+    | none => rw [h1, h2] at h; cases h
+    | some tu =>
+      rw [h1, h2] at h
+      simp only [Option.any_some, decide_eq_true_eq] at h
+      exact ⟨t, tu, rfl, rfl, h⟩
+
+theorem core : LoopsRelatedCore sp R R' {} plug plug :=
+  ⟨clean_u, fun id => Lemmas.IncludeNoAug.pendingOf_nil _ pnil_u id, trees⟩
+end Ex4C
+
+/-- All hypotheses of `include_eq_inline_augments_norpc_reduced` hold of `Ex4`: its conclusion, obtained through
+the proved chain (module order, view, `FixChoice`, later stages, dump of related trees) from the kernel-checked core. -/
+example : IncludeEqInlineAugments Ex4.sp Ex4.R Ex4.R' {} Ex.plug Ex.plug :=
+  include_eq_inline_augments_norpc_reduced Ex4.sp Ex4.R Ex4.R' {} Ex.plug Ex.plug Ex4.isSplit (by decide +kernel)
+    (by decide +kernel) Ex4E.argsPlain (by decide +kernel) (fun _ _ => Ex4C.core)
+
+
+/-! ### (I), first half, for all sets: `IOShape` along the augment loop -/
+
+/-- **include_io_shape_along_loop** (piece I, first half: every registry, option set and plug; rpc / action nodes
+allowed).  Every tree the conversion produces and every tree along the augment loop — any fuel, any module order —
+has the shape `IOShape`: an rpc / action node has no `Dir` child, any other node no rpc input / output.  (Conversion:
+an rpc / action statement's entry gets its flag when its `Dir` is still empty, `Lemmas.IncludeAugShape.closedT_shapeFrame`;
+loop: `Find` creates an input / output only at an rpc node, and `merge` is applied only at a target that is not
+one, `cannotHaveChildren`.) -/
+theorem include_io_shape_along_loop (reg : Registry) (opts : Opts) (plug : Plug) (fuel : Nat) (mods : Array Nat) :
+    (∀ t ∈ (forest0 reg opts plug).trees, Lemmas.IncludeAugView.IOShape t.2) ∧
+    ∀ t ∈ (augmentLoop reg fuel mods (pstate0 reg opts plug)).2.forest.trees, Lemmas.IncludeAugView.IOShape t.2 :=
+  ⟨(Lemmas.IncludeAugShape.ioShapeStart reg opts plug).1, Lemmas.IncludeAugShape.ioShape_loop_all reg opts plug fuel mods⟩
+
+/-! `include_io_shape_along_loop` has no hypothesis; a set it speaks about non-trivially: module `t` with
+`rpc r { input { leaf a } }` (no output written) and module `ma` with `augment /t:r/t:output { leaf b }`:
+`IOShapeStart` (kernel-evaluated here, proved in general), not `NoIOStart`; the loop creates the output of `r` on the
+way to the target and grafts `b` into it. -/
+namespace Ex6
+open Ex (st plug)
+open Goyang.Lemmas.IncludeAugShape
+def ty (f : String) (l c : Nat) : Stmt := st f "type" "string" l c []
+def rpcS : Stmt := st "t" "rpc" "r" 1 40 [st "t" "input" "" 1 48 [st "t" "leaf" "a" 1 56 [ty "t" 1 65]]]
+def tS : Stmt := st "t" "module" "t" 1 1 [st "t" "namespace" "urn:t" 1 12 [], st "t" "prefix" "t" 1 30 [], rpcS]
+def imp (f m : String) (c : Nat) : Stmt := st f "import" m 1 c [st f "prefix" m 1 (c + 10) []]
+def augA : Stmt := st "ma" "augment" "/t:r/t:output" 1 70 [st "ma" "leaf" "b" 1 92 [ty "ma" 1 100]]
+def maS : Stmt := st "ma" "module" "ma" 1 1 [st "ma" "namespace" "urn:ma" 1 12 [], st "ma" "prefix" "ma" 1 30 [], imp "ma" "t" 40, augA]
+def R : Registry := (Registry.loadAll [maS, tS]).1
+
+example : IOShapeStart R {} plug := by decide +kernel
+example : ¬ Lemmas.IncludeAugIO.NoIOStart R {} plug := by decide +kernel
+open Goyang.Lemmas.IncludeAugK in
+example : ((afterLoop R {} plug).2.forest.tree? 1).any (fun t => t.dir.any fun r => r.d.isRpc && r.inp.length == 1 &&
+    r.out.any fun o => o.dir.map (·.name) == ["b"]) = true ∧
+    ((pstate0 R {} plug).forest.tree? 1).any (fun t => t.dir.any fun r => r.d.isRpc && r.inp.length == 1 && r.out.isEmpty) = true := by
+  rw [afterLoop_eqK]; decide +kernel
+end Ex6
+
+/-- **include_eq_inline_augments_reduced_sameIO.**  For every split set (rpc / action nodes allowed)
+`IncludeEqInlineAugments` follows from `LoopsRelatedCore` and `SameIO` of the owner's trees after the two runs over
+the split set (its own module order against the unsplit set's): the `IOShape` parts of `LoopsRelated` are derived
+(`include_io_shape_along_loop`). -/
+theorem include_eq_inline_augments_reduced_sameIO (s : Split) (R R' : Registry) (opts : Opts) (plug plug' : Plug)
+    (h : IsSplitOf s R R' plug plug') (hL : Lemmas.Fuel.LoadedShape R') (hpos : Lemmas.Bridge.AugPosDistinct R')
+    (hplain : Lemmas.Bridge.AugArgsPlain R')
+    (hS : (processAll R opts plug).errors = [] → Lemmas.IncludeAugOrder.NoLeftover R opts plug →
+      Lemmas.IncludeAugIO.LoopsRelatedCore s R R' opts plug plug' ∧
+      ∀ ts tu, (afterLoop R' opts plug').2.forest.tree? s.m.seq = some ts →
+        (Lemmas.IncludeAugCompose.loopU R R' opts plug').forest.tree? s.m.seq = some tu → Lemmas.IncludeAugView.SameIO ts tu) :
+    IncludeEqInlineAugments s R R' opts plug plug' :=
+  include_eq_inline_augments_reduced s R R' opts plug plug' h hL hpos hplain
+    (fun hc hn => Lemmas.IncludeAugShape.loopsRelated_of_ioShape opts plug plug'
+      (Lemmas.IncludeAugShape.ioShapeStart R' opts plug') (hS hc hn).1 (hS hc hn).2)
+
+/-- The hypotheses of `include_eq_inline_augments_reduced_sameIO` hold of `Ex4` (`SameIO` there: no rpc node). -/
+example : IncludeEqInlineAugments Ex4.sp Ex4.R Ex4.R' {} Ex.plug Ex.plug := by
+  have h0 : Lemmas.IncludeAugIO.NoIOStart Ex4.R' {} Ex.plug := by decide +kernel
+  refine include_eq_inline_augments_reduced_sameIO Ex4.sp Ex4.R Ex4.R' {} Ex.plug Ex.plug Ex4.isSplit (by decide +kernel)
+    (by decide +kernel) Ex4E.argsPlain (fun _ _ => ⟨Ex4C.core, ?_⟩)
+  intro ts tu hts htu
+  exact Lemmas.IncludeAugIO.sameIO_of_noIO
+    (Lemmas.IncludeAugIO.noIO_loop Ex4.R' {} Ex.plug h0 _ _ (_, ts) (Lemmas.IncludeAugCompose.mem_of_tree? hts))
+    (Lemmas.IncludeAugIO.noIO_loop Ex4.R' {} Ex.plug h0 _ _ (_, tu) (Lemmas.IncludeAugCompose.mem_of_tree? htu))
 
 end Goyang.Props.C13Include
